@@ -321,9 +321,17 @@ def _worker_chunk(chunk):
             body = mod.script(spec)
             bodies[i] = body
             items.append((i, body))
-        out = run_batch(bindirs[variant], items, leak=getattr(mod, 'LEAKCHECK', False),
-                        timeout=opts.get('timeout', 300), solo_timeout=opts.get('solo_timeout', 60),
-                        cwd=opts.get('cwd'))
+        if getattr(mod, 'ISOLATE', False):
+            # one process per case: process-global state is the subject
+            out = {}
+            for it in items:
+                out.update(run_batch(bindirs[variant], [it], leak=getattr(mod, 'LEAKCHECK', False),
+                                     timeout=opts.get('solo_timeout', 60), solo_timeout=opts.get('solo_timeout', 60),
+                                     cwd=opts.get('cwd'), env_extra=opts.get('env')))
+        else:
+            out = run_batch(bindirs[variant], items, leak=getattr(mod, 'LEAKCHECK', False),
+                            timeout=opts.get('timeout', 300), solo_timeout=opts.get('solo_timeout', 60),
+                            cwd=opts.get('cwd'), env_extra=opts.get('env'))
         for i, spec in enumerate(chunk):
             res.evaluations += 1
             if i not in out:
@@ -484,7 +492,9 @@ def replay(modname, path, bindirs):
     spec = rp['spec']
     body = mod.script(spec)
     variant = getattr(mod, 'VARIANT', 'asan')
-    out = run_batch(bindirs[variant], [(0, body)], leak=getattr(mod, 'LEAKCHECK', False))
+    opts = mod.replay_opts(bindirs) if hasattr(mod, 'replay_opts') else {}
+    _W['opts'] = opts
+    out = run_batch(bindirs[variant], [(0, body)], leak=getattr(mod, 'LEAKCHECK', False), cwd=opts.get('cwd'), env_extra=opts.get('env'))
     events, death = out[0]
     v = mod.judge(spec, events, death)
     print('replay of %s: key=%s' % (path, rp['key']))
